@@ -605,9 +605,11 @@ func (fr *Frame) runDeferred(st *State, d deferred, pos token.Pos) {
 
 func (fr *Frame) execGo(st *State, x *ssa.Go) {
 	// The goroutine body is not executed here (it is verified on its own if it has a contract).
+	var gargs []Val
 	for _, a := range x.Call.Args {
-		fr.val(st, a)
+		gargs = append(gargs, fr.val(st, a))
 	}
+	fr.callHooks(st, "go", gargs, x.Pos()) // "oncall go:" / "callsite go:" hooks count and constrain spawns
 	name := "?"
 	if fn := x.Call.StaticCallee(); fn != nil {
 		name = fn.Name()
